@@ -162,7 +162,7 @@ func (r *Run) Violate(v Violation) {
 		return
 	}
 	r.newSigs[v.Sig]++
-	if r.newSigs[v.Sig] <= 3 && len(r.newViol) < 60 {
+	if r.newSigs[v.Sig] <= 2 && len(r.newViol) < 400 {
 		r.newViol = append(r.newViol, v)
 	}
 }
@@ -253,6 +253,7 @@ func (r *Run) Finish() {
 		os.Exit(0)
 	}
 	dir := filepath.Join(VerifDir, "replays", r.Prop)
+	_ = os.RemoveAll(dir) // replay files of earlier runs would only confuse
 	_ = os.MkdirAll(dir, 0o755)
 	seen := map[string]bool{}
 	for _, v := range r.newViol {
